@@ -30,6 +30,10 @@ CHECKS = {
    text="FeelSyntax.tla holds the operator table (binding power, associativity, closed/open positions) and renders syntax trees as token sequences; TLC enumerates every construct nested in every operand position of every other construct (2106 pairs) and three-level nests over the operator ladder (quick) or all templates (thorough), each in its fully parenthesised, minimally parenthesised and - where one needed pair exists - parenthesis-free rendering. The harness lays the tokens out (spaces; tabs/line breaks; block and line comments; comments after declared names/types as a separately judged layout), parses with names bound, converts the AstNode to the spec's tree encoding, and TLC compares: full and min must give back the tree, the pair-removed rendering must not. String-literal escapes (\\uXXXX, \\UXXXXXX, surrogate pairs) are decoded for boundary and random code points (all code points in thorough).",
    note="The minimal-parenthesis rule is the spec's own (transcribed from the DMN rule order / feel.y precedences); a reference parser in TLA+ to validate it independently is not built. Trusts TLC and the harness's AstNode converter.",
    technique="TLA+ operator-table specification generating parse stimuli and judging the parsed trees (round trip) of the real parser"),
+ "C01": dict(cat="exploration", design="DESIGN.md §5 C01",
+   text="FeelEval.tla is a big-step semantics of the FEEL core fragment (DMN 1.3 §10.3.2) over the syntax trees of FeelSyntax.tla, with Unspec wherever the standard is silent or its versions differ. TLC enumerates every inner construct in the hole of every outer construct (2677 expressions quick; a third nesting level in thorough) and six scopes binding the free names to numbers, strings, booleans, nulls, lists and contexts; the harness parses the fully parenthesised rendering, evaluates it in a programmatically built scope - and again with irrelevant extra bindings and an extra bottom context - and TLC compares the observed value with Eval (and the two observations with each other).",
+   note="About 40% of the (expression, scope) cases are Unspec (kind mismatches such as a non-boolean if condition) and accepted; the count is in the evidence. Numbers stay in a small exact range (C02 owns decimal arithmetic). Trusts TLC, FeelEval.tla's reading of the standard, the harness scope builder.",
+   technique="TLA+ executable semantics (FeelEval) as oracle for traces of the real evaluator; expressions enumerated by TLC"),
 }
 NOT_YET = {}
 props = [json.loads(l) for l in open('/verif/properties.jsonl')]
